@@ -15,7 +15,41 @@
 
 """Some generic utility functions used by Gin."""
 
+import builtins
 import contextlib
+import types
+
+
+_DATA_DESCRIPTORS = (types.MemberDescriptorType, types.GetSetDescriptorType)
+_EXCEPTION_GROUP = getattr(builtins, 'BaseExceptionGroup', ())  # Python >= 3.11.
+_HEAPTYPE = 1 << 9  # Py_TPFLAGS_HEAPTYPE: set for classes defined in Python.
+
+
+def _copy_exception_as(cls, exception):
+  """Returns a `cls` instance with `exception`'s state, running no constructor.
+
+  `cls` must be a subclass of `type(exception)`. The instance is allocated by
+  the `__new__` of the nearest base class implemented in C (so that required
+  arguments of a Python-level `__new__` or `__init__` don't matter), and then
+  receives the original's `args`, `__dict__`, `__cause__`, ..., `__slots__` and
+  type-specific fields (`errno`, `value`, `name`, ...) through the descriptors
+  that store them.
+  """
+  base = type(exception)
+  while base.__flags__ & _HEAPTYPE:
+    base = base.__base__
+  if issubclass(base, _EXCEPTION_GROUP):  # These fields are set by `__new__`.
+    copy = base.__new__(cls, exception.message, exception.exceptions)
+  else:
+    copy = base.__new__(cls)
+  for klass in type(exception).__mro__[:-1]:  # All but `object` (`__class__`).
+    for descriptor in vars(klass).values():
+      if isinstance(descriptor, _DATA_DESCRIPTORS):
+        try:
+          descriptor.__set__(copy, descriptor.__get__(exception, klass))
+        except (AttributeError, TypeError):
+          pass  # Unset on `exception`, or read-only.
+  return copy
 
 
 def augment_exception_message_and_reraise(exception, message):
@@ -25,19 +59,13 @@ def augment_exception_message_and_reraise(exception, message):
     """Acts as a proxy for an exception with an augmented message."""
     __module__ = type(exception).__module__
 
-    def __init__(self):
-      pass
-
-    def __getattr__(self, attr_name):
-      return getattr(exception, attr_name)
-
     def __str__(self):
       return str(exception) + message
 
   ExceptionProxy.__name__ = type(exception).__name__
-
-  proxy = ExceptionProxy()
   ExceptionProxy.__qualname__ = type(exception).__qualname__
+
+  proxy = _copy_exception_as(ExceptionProxy, exception)
   raise proxy.with_traceback(exception.__traceback__)
 
 
